@@ -14,6 +14,9 @@ namespace VueJsx
 /-- `MAX_TYPE_RESOLUTION_DEPTH` -/
 def FUEL : Nat := 64
 
+/-- marker for `any` / `unknown` among the inferred runtime types -/
+def ANY_TYPE : String := "any"
+
 def tooDeep : String := "Error: Type is circular or nested too deeply to be resolved."
 
 /-- runtime type entry: `some "String"` … or `none` for the `null` value -/
@@ -252,7 +255,8 @@ def inferRuntime (fuel : Nat) (st : St) (ty : Node) : List RT × St :=
       (if k == "string" then [some "String"] else if k == "number" then [some "Number"]
        else if k == "boolean" then [some "Boolean"] else if k == "object" then [some "Object"]
        else if k == "null" then [none] else if k == "bigint" then [some "BigInt"]
-       else if k == "symbol" then [some "Symbol"] else [none], st)
+       else if k == "symbol" then [some "Symbol"]
+       else if k == "any" || k == "unknown" then [some ANY_TYPE] else [none], st)
     | .mk .tsTypeLit _ [.mk .list _ members] => (memberRuntime members, st)
     | .mk .tsFnType _ _ => ([some "Function"], st)
     | .mk .tsCtorType _ _ => ([some "Function"], st)
@@ -345,8 +349,19 @@ def defaultMatches (dname pname : Node) : Bool :=
     | .mk .str (a :: _) _, .mk .ident (b :: _) _ => a == b
     | _, _ => false
 
+/-- the `default` written for a matched entry: Vue doesn't call the default of a `Function` prop as a factory, so
+    there a factory is undone (an expression body is the value; a getter's block is called in place) -/
+def finalDefault (isFunctionProp : Bool) (dflt : Node) (isFactory : Bool) : Node :=
+  match dflt with
+  | .mk .arrow _ [_, body, _, _] =>
+    if isFactory && isFunctionProp then (match body with | .mk .block _ _ => nCall dflt [] | v => v) else dflt
+  | d => d
+
+/-- the list written into `type:` — `any` / `unknown` anywhere means no check at all (`type: null`) -/
+def emittedTypes (types : List RT) : List RT := if types.contains (some ANY_TYPE) then [none] else types
+
 /-- `build_props_type(type_ann, defaults)`; `ty` is the annotated type -/
-def buildPropsType (st : St) (ty : Node) (defaults : Option (List (Node × Node))) : Node × St :=
+def buildPropsType (st : St) (ty : Node) (defaults : Option (List (Node × Node × Bool))) : Node × St :=
   let (elems, st) := resolveElements FUEL st ty
   let (irs, st) := elems.foldl (fun (acc : List PropIr × St) m =>
     let (irs, st) := acc
@@ -356,7 +371,7 @@ def buildPropsType (st : St) (ty : Node) (defaults : Option (List (Node × Node)
       let (types, st) :=
         match typeAnnInner ann with
         | some t => inferRuntime FUEL st t
-        | none => ([none], st)
+        | none => ([some ANY_TYPE], st)          -- no annotation: implicitly `any`
       let optional := opt == "true"
       (irUpdate irs pname
         (fun ir => { ir with required := if optional then false else ir.required, types := rtExtend ir.types types })
@@ -366,7 +381,7 @@ def buildPropsType (st : St) (ty : Node) (defaults : Option (List (Node × Node)
       let (types, st) :=
         match typeAnnInner ann with
         | some t => inferRuntime FUEL st t
-        | none => ([none], st)
+        | none => ([some ANY_TYPE], st)
       (irUpdate irs pname (fun ir => { ir with types := rtExtend ir.types types })
         { key := pname, types := types, required := true }, st)
     | .mk .tsMethodSig [comp, opt] (key :: _) =>
@@ -378,8 +393,10 @@ def buildPropsType (st : St) (ty : Node) (defaults : Option (List (Node × Node)
         { key := pname, types := [some "Function"], required := !optional }, st)
     | _ => (irs, st)) ([], st)
   let props := irs.map fun ir =>
+    let types := emittedTypes ir.types
+    let isFunctionProp := types.contains (some "Function")
     let tyExpr :=
-      match ir.types with
+      match types with
       | [t] => rtExpr t
       | ts => nArray (ts.map fun t => nArg (rtExpr t))
     let inner := [nKV (nIdentName "type") tyExpr, nKV (nIdentName "required") (nBool ir.required)]
@@ -387,7 +404,9 @@ def buildPropsType (st : St) (ty : Node) (defaults : Option (List (Node × Node)
       match defaults with
       | some ds =>
         match ds.find? (fun d => defaultMatches d.1 ir.key) with
-        | some d => inner ++ [nKV (nIdentName "default") d.2]
+        | some (_, dflt, isFactory) =>
+          let dflt := finalDefault isFunctionProp dflt isFactory
+          inner ++ [nKV (nIdentName "default") dflt]
         | none => inner
       | none => inner
     nKV ir.key (nObject inner)
@@ -414,28 +433,28 @@ def tryUnwrapLitPropName (key : Node) : Option Node :=
   | .mk .bigint _ _ => some key
   | .mk .computed _ [e] =>
     match e with
-    | .mk .ident (n :: _) _ => some (nIdentName n)
-    | .mk .str _ _ => some e
+    | .mk .str _ _ => some e          -- `[name]: v` with an identifier is a dynamic key
     | .mk .num _ _ => some e
     | .mk .bigint _ _ => some e
     | _ => none
   | _ => none
 
-/-- one property of the defaults object literal → (key, default expression), or `none` if not static -/
-def staticDefault (p : Node) : Option (Node × Node) :=
+/-- one property of the defaults object literal → (key, default expression, is-a-factory-around-the-value),
+    or `none` if not static -/
+def staticDefault (p : Node) : Option (Node × Node × Bool) :=
   match p with
-  | .mk .ident (n :: b :: _) _ => some (nIdentName n, nArrow [] (nIdent n b))          -- shorthand
+  | .mk .ident (n :: b :: _) _ => some (nIdentName n, nArrow [] (nIdent n b), true)          -- shorthand
   | .mk .kv _ [key, value] =>
-    (tryUnwrapLitPropName key).map fun k => (k, if isLit value then value else nArrow [] value)
+    (tryUnwrapLitPropName key).map fun k => (k, (if isLit value then value else nArrow [] value), !isLit value)
   | .mk .getterProp _ [key, _, body] =>
     match body with
-    | .mk .block _ _ => (tryUnwrapLitPropName key).map fun k => (k, nArrow [] body)
+    | .mk .block _ _ => (tryUnwrapLitPropName key).map fun k => (k, nArrow [] body, true)
     | _ => none
   | .mk .methodProp as (key :: fnKids) =>
-    (tryUnwrapLitPropName key).map fun k => (k, .mk .fnExpr as (nNone :: fnKids))
+    (tryUnwrapLitPropName key).map fun k => (k, .mk .fnExpr as (nNone :: fnKids), false)
   | _ => none
 
-def allStatic : List Node → Option (List (Node × Node))
+def allStatic : List Node → Option (List (Node × Node × Bool))
   | [] => some []
   | p :: rest =>
     match staticDefault p, allStatic rest with
@@ -471,7 +490,7 @@ def extractPropsType (env : Env) (setupArg : Node) (st : St) : Option Node × St
     match patTypeAnn 64 pat with
     | none => (none, st)
     | some ty =>
-      let staticDs : Option (Option (List (Node × Node))) :=     -- none: no defaults; some none: dynamic
+      let staticDs : Option (Option (List (Node × Node × Bool))) :=     -- none: no defaults; some none: dynamic
         defaults.map fun d =>
           match d with
           | .mk .object _ [.mk .list _ props] => allStatic props
@@ -489,6 +508,26 @@ def extractPropsType (env : Env) (setupArg : Node) (st : St) : Option Node × St
         let (obj, st) := buildPropsType st ty none
         (some obj, st)
 
+/-- the event names one resolved member of `E` contributes -/
+def emitStep (acc : List String × St) (m : Node) : List String × St :=
+  match m with
+  | .mk .tsCallSig _ (.mk .list _ params :: _) =>
+    let pann : Option Node :=
+      match params.head? with
+      | some (.mk .ident _ [a]) => typeAnnInner a
+      | some (.mk .arrayPat _ [_, a]) => typeAnnInner a
+      | some (.mk .restPat _ [_, a]) => typeAnnInner a
+      | some (.mk .objectPat _ [_, a]) => typeAnnInner a
+      | _ => none
+    match pann with
+    | some t => let (ns, st) := resolveStrings FUEL acc.2 t; (acc.1 ++ ns, st)
+    | none => acc
+  | .mk .tsGetterSig _ _ => acc
+  | m =>
+    match memberKeyName m with
+    | some (some k) => (acc.1 ++ [k], acc.2)
+    | _ => acc
+
 /-- `extract_emits_type` -/
 def extractEmitsType (setupArg : Node) (st : St) : Option Node × St :=
   let second : Option Node := (setupParams setupArg).bind (·[1]?)
@@ -505,24 +544,7 @@ def extractEmitsType (setupArg : Node) (st : St) : Option Node × St :=
     | none => (none, st)
     | some emitsDef =>
       let (elems, st) := resolveElements FUEL st emitsDef
-      let (names, st) := elems.foldl (fun (acc : List String × St) m =>
-        match m with
-        | .mk .tsCallSig _ (.mk .list _ params :: _) =>
-          let pann : Option Node :=
-            match params.head? with
-            | some (.mk .ident _ [a]) => typeAnnInner a
-            | some (.mk .arrayPat _ [_, a]) => typeAnnInner a
-            | some (.mk .restPat _ [_, a]) => typeAnnInner a
-            | some (.mk .objectPat _ [_, a]) => typeAnnInner a
-            | _ => none
-          match pann with
-          | some t => let (ns, st) := resolveStrings FUEL acc.2 t; (acc.1 ++ ns, st)
-          | none => acc
-        | .mk .tsGetterSig _ _ => acc
-        | m =>
-          match memberKeyName m with
-          | some (some k) => (acc.1 ++ [k], acc.2)
-          | _ => acc) ([], st)
+      let (names, st) := elems.foldl emitStep ([], st)
       (some (nArray (names.map fun n => nArg (nStr n))), st)
   | _ => (none, st)
 
@@ -611,9 +633,16 @@ def declaratorHook (o : Opts) (d : Node) (st : St) : Node × St :=
     else (d, st)
   | d => (d, st)
 
-/-- `visit_mut_ts_interface_decl` -/
-def ifaceHook (o : Opts) (n : Node) (st : St) : St :=
-  if !o.resolveType then st else
+mutual
+def allNodes : Node → List Node
+  | .mk k as ks => .mk k as ks :: allNodesL ks
+def allNodesL : List Node → List Node
+  | [] => []
+  | n :: ns => allNodes n ++ allNodesL ns
+end
+
+/-- `TypeDeclCollector::visit_ts_interface_decl` -/
+def ifaceHook (n : Node) (st : St) : St :=
   match n with
   | .mk .tsIface as [id, tp, ext, .mk .tsIfaceBody bas [.mk .list las members]] =>
     let key := (identName id, identBind id)
@@ -625,9 +654,8 @@ def ifaceHook (o : Opts) (n : Node) (st : St) : St :=
     | none => { st with interfaces := st.interfaces ++ [(key, .mk .tsIface as [id, tp, ext, .mk .tsIfaceBody bas [.mk .list las members]])] }
   | _ => st
 
-/-- `visit_mut_ts_type_alias_decl` -/
-def aliasHook (o : Opts) (n : Node) (st : St) : St :=
-  if !o.resolveType then st else
+/-- `TypeDeclCollector::visit_ts_type_alias_decl` -/
+def aliasHook (n : Node) (st : St) : St :=
   match n with
   | .mk .tsAlias _ [id, _, ty] =>
     let key := (identName id, identBind id)
@@ -635,5 +663,13 @@ def aliasHook (o : Opts) (n : Node) (st : St) : St :=
       { st with typeAliases := st.typeAliases.map fun p => if p.1 == key then (p.1, ty) else p }
     else { st with typeAliases := st.typeAliases ++ [(key, ty)] }
   | _ => st
+
+/-- the up-front collection of every interface and type alias of the module, in any scope (`TypeDeclCollector`) -/
+def collectTypes (m : Node) (st : St) : St :=
+  (allNodes m).foldl (fun st d =>
+    match d with
+    | .mk .tsIface _ _ => ifaceHook d st
+    | .mk .tsAlias _ _ => aliasHook d st
+    | _ => st) st
 
 end VueJsx
